@@ -444,6 +444,7 @@ COMP_TARGETS = {
 COMP_TWO = ('st-two', 'abi <abi/4.0>,\n\ninclude <tunables/global>\n\n@{exec_path} = @{bin}/st-two\nprofile st-two @{exec_path} {\n  include <abstractions/base>\n\n  @{exec_path} mr,\n\n  /etc/st-two r,\n\n'
             '  include if exists <local/st-two>\n}\n\nprofile st-two-helper @{bin}/st-two-helper {\n  include <abstractions/base>\n\n  /etc/st-two-helper r,\n\n  include if exists <local/st-two-helper>\n}\n')
 COMP_TARGETS['st-chain3'] = ['include <abstractions/base>', '', '@{exec_path} mr,', '', '/etc/st-chain3 r,', '', '#aa:stack st-chain']      # (fourth hunt) three stacks deep, then st-dir's directives
+COMP_TARGETS['st-guarded-bis'] = ['include <abstractions/base>', '', '@{exec_path} mr,', '', '/etc/st-guarded-bis r,']      # a name that starts with another target's name
 COMP_TARGETS['st-guarded'] = ['include <abstractions/base>', '', '@{exec_path} mr,', '', '/etc/st-guarded r,']
 COMP_TARGETS['st-exec-dir'] = ['include <abstractions/base>', '', '@{exec_path} mr,', '', '/etc/st-exec-dir r,', '', '#aa:exec gen-t1']
 # what must / must not be in the output whenever the line is in the host (independent of the real code)
@@ -475,6 +476,8 @@ COMP_LINES = {
     'guard-exec': '  #aa:only apt\n  #aa:exec st-guarded',
     'guard-stack': '  #aa:only apt\n  #aa:stack st-guarded',
     'guard-dbus': '  #aa:exclude arch\n  #aa:dbus own bus=session name=org.example.Guarded',
+    # (regression hunt) an unguarded stack whose line starts with the line of the guarded one (substring test in Run)
+    'stack-guarded-bis': '  #aa:stack st-guarded-bis',
     # (fourth hunt) the same generating line in a second paragraph dropped by another guard
     'guard-dbus-twin': '  #aa:only apt\n  #aa:dbus own bus=session name=org.example.Guarded\n  /etc/host.twin r,',
 }
